@@ -190,7 +190,9 @@ def random_table(rng, n, malformed=False):
 
 def message(rng, maxlen):
     kind = rng.choice(["random", "random", "random", "zeros", "ones", "leading0", "pow2", "empty", "short"])
-    n = rng.choice([0, 1, 2, 3, 5, 8, 13, 16, rng.randint(0, maxlen), rng.randint(0, maxlen)])
+    n = rng.choice([0, 1, 2, 3, 5, 8, 13, 16, rng.randint(0, maxlen), rng.randint(0, maxlen), rng.randint(0, maxlen),
+                    rng.choice([31, 32, 33, 63, 64, 65, 127, 128, 129])])
+    n = min(n, max(maxlen, 0))
     if kind == "empty":
         return []
     if kind == "zeros":
@@ -204,7 +206,10 @@ def message(rng, maxlen):
         return [0] * z + [rng.randint(0, 1) for _ in range(n - z)]
     if kind == "pow2":
         return ([1] + [0] * (n - 1)) if n else []
-    return [rng.randint(0, 1) for _ in range(n)]
+    out = [rng.randint(0, 1) for _ in range(n)]
+    if out and rng.random() < 0.5:
+        out[0] = 1          # a leading 1: the value needs the full width
+    return out
 
 
 class CountingAccessor(np.ndarray):
